@@ -54,6 +54,9 @@ class S10(Sim):
         self.n_refused = 0
         self.n_timeouts = 0
         self.writes_checked = 0
+        self.killed = None
+        self.kill_count = 0
+        self.kill_site = None
 
     def digest(self):
         h = {}
@@ -134,7 +137,27 @@ class S10(Sim):
             if (self.possible - {w}) or (self.holder and self.holder != w):
                 self.other_possible_during[w] = True
 
+    def maybe_kill(self, a):
+        """History slice with a writer that dies: handle `h` is killed at the k-th file operation of its write operations."""
+        kl = self.scen.get("kill")
+        if not kl or self.killed or a.top != f"h{kl['handle']}" or not a.msg or a.msg.get("k") != "io":
+            return False
+        c = self.pending_calls.get(a.top)
+        if not c or c["op"] not in ("promote", "work", "demote", "complete_id"):
+            return False
+        self.kill_count += 1
+        if self.kill_count < kl["k"]:
+            return False
+        self.killed = a.top
+        self.kill_site = self.point_class(a.msg)
+        self.log("KILL_HANDLE", a.top, a.host, c["op"], self.kill_site)
+        self.reply(a, **{"a": "die"})
+        return True
+
     def step_actor(self, a):
+        if self.maybe_kill(a):
+            self.settle()
+            return
         who = (a.msg or {}).get("who") if a.msg and a.msg.get("k") in ("call", "ret") else None
         in_stale = None
         for w, c in self.pending_calls.items():
@@ -188,5 +211,6 @@ class S10(Sim):
         res = self.result(err)
         res.update(ops=len(self.hist), promotions=self.n_promoted, refusals=self.n_refused, overlapping_promotes=self.n_overlap, stale_attempts=self.n_stale,
                    stale_rejected=self.n_rejected, timeouts=self.n_timeouts, steps_version_checked=self.writes_checked,
-                   errors=sum(1 for h in self.hist if h[2].get("outcome") == "error"))
+                   errors=sum(1 for h in self.hist if h[2].get("outcome") == "error"), killed_handle=self.killed, kill_site=str(self.kill_site) if self.kill_site else None,
+                   stale_after_kill=sum(1 for h in self.hist if self.killed and h[1].startswith("stale") and h[2].get("outcome") in ("rejected", "accepted")))
         return res
